@@ -273,7 +273,7 @@ func (p *progGen) node(b *strings.Builder, depth int) {
 		}
 	case "poly":
 		// the same path resolves through a method, a map key or a struct field depending on the context
-		fmt.Fprintf(b, "{{ poly.%s }}", p.pick([]string{"Name", "Title", "Name|upper", "Kids.0", "Nick"}))
+		fmt.Fprintf(b, "{{ %s }}", p.pick([]string{"poly.Name", "poly.Title", "poly.Name|upper", "poly.Kids.0", "poly.Nick", "poly2.Name", "poly2.Title", "poly2.Name|lower"}))
 	case "lazyvar":
 		// the file a lazy include names depends on the context
 		p.use("include")
@@ -718,6 +718,22 @@ type polyMethods struct{ n string }
 func (p *polyMethods) Name() string  { return "method:" + p.n }
 func (p *polyMethods) Title() string { return "Title of " + p.n }
 
+// three more receiver types that all have the methods Name and Title, at different
+// positions of their method sets (reflect numbers methods in name order)
+type polyMethodsB struct{ n string }
+
+func (p *polyMethodsB) Alpha() string { return "alpha-of-" + p.n }
+func (p *polyMethodsB) Name() string  { return "B-method:" + p.n }
+func (p *polyMethodsB) Title() string { return "B-title of " + p.n }
+
+type polyMethodsC struct{ n string }
+
+func (p polyMethodsC) Aaa() string   { return "aaa" }
+func (p polyMethodsC) Abc() string   { return "abc" }
+func (p polyMethodsC) Name() string  { return "C-method:" + p.n }
+func (p polyMethodsC) Title() string { return "C-title of " + p.n }
+func (p polyMethodsC) Zeta() string  { return "zeta" }
+
 type polyFields struct {
 	Name string
 	Nick string
@@ -770,11 +786,12 @@ func (w *World) BuildCtx(d CtxDesc) pongo2.Context {
 		"f1":        []float64{1.5, 2.0, 0.25}[v],
 		"b1":        []bool{true, false, true}[v],
 		"nl":        nil,
-		"lst":       []any{[]int{1, 2, 3}, []int{}, []string{"5", "5x"}}[v],
-		"strs":      [][]string{{"a", "b", "c"}, {"x"}, {"q", "a"}}[v],
+		"lst":       []any{[]int{3, 1, 2}, []int{}, []string{"5x", "5"}}[v], // (not in sorted order: an engine that sorts in place shows)
+		"strs":      [][]string{{"b", "c", "a"}, {"x"}, {"q", "a"}}[v],
 		"mp":        []any{map[string]any{"k1": "v1", "k2": 2}, map[string]string{"k1": "<v>"}, map[string]any{"k1": "", "k3": 3.5, "k0": "z"}}[v],
 		"st":        st,
 		"strg":      simStringer{[]string{"x", "<y>", ""}[v]},
+		"poly2":     []any{&polyMethods{"P2"}, &polyMethodsB{"PB<"}, polyMethodsC{"PC"}}[v],
 		"poly":      []any{&polyMethods{"PM"}, map[string]any{"Name": "mapname<", "Title": "maptitle", "Kids": []string{"k1"}}, polyFields{Name: "fieldname", Nick: "nick&", Kids: []int{7, 8}}}[v],
 		"lzv":       []string{"inc0.tpl", "inc1.tpl", "inc0.tpl"}[v],
 		"bigs":      bigStrings[v],
